@@ -1253,6 +1253,8 @@ class Interp:
                         return r
             return st
         if isinstance(target, (ast.Tuple, ast.List)):
+            if is_handle(value):
+                value = st.get(heap_key(value), TOP)   # unpacking reads what the list holds now
             for i, t in enumerate(target.elts):
                 v = TOP
                 if isinstance(value, tuple) and value and value[0] == "tuple" and len(value) - 1 == len(target.elts):
